@@ -658,7 +658,7 @@ func sequential(t *testing.T, r *ev.Run, ks *keyring) {
 	jobs := make(chan int)
 	var wg sync.WaitGroup
 	// every DAG has its own store, model and PRNG stream: they run side by side (the case list does not depend on the interleaving)
-	for w := 0; w < 6; w++ {
+	for w := 0; w < 12; w++ {
 		wg.Add(1)
 		go func() {
 			defer wg.Done()
